@@ -6,15 +6,30 @@ BASELINE_OFF = "cd /repo && go build ./... && go test -mod=mod -vet=off -count=1
 
 CLAIMED = {
  # id: (level text, level note, design ref)
- "C03": ("Deductive proof (govc: VCs generated from go/ssa of /repo, discharged by z3/cvc5) of the parts of the property that are this repository's code: PKCS#7 pad/unpad against RFC 5652 as quantified postconditions. Primitive ciphers are assumed contracts.",
-         "Assumes: libspec contracts of the standard library (listed in evidence trusted_base), govc's SSA->SMT encoding, solver soundness. Interop with independent implementations is reduced to 'code equals the spec functions'.",
+ "C03": ("Deductive proof (govc: VCs generated from go/ssa of /repo, discharged by z3/cvc5) of the parts of the property that are this repository's code: dispatch tables against the Supported*Algorithms lists, sentinel errors and no-output-on-error for every helper, PKCS#7 pad/unpad against RFC 5652 as quantified postconditions, AEAD plumbing (what is handed to Seal/Open and how the output is split), AES-CBC-HMAC-SHA2 structure per RFC 7518 (key split, MAC input order AD|IV|CT|AL, tag checked before decryption), key-wrap length/integrity facts. Primitive ciphers are assumed contracts.",
+         "Assumes: libspec contracts of the standard library and jwx (listed in evidence trusted_base), govc's SSA->SMT encoding, solver soundness. Interop with independent implementations and strength of tamper rejection are reduced to 'code equals the spec functions' plus the primitives' assumed contracts; RFC 3394 functional correctness of aeskw is not proved.",
          "DESIGN.md §6 C03"),
- "C16": ("Deductive proof that the stream wrappers implement the io.Reader contract over the right abstract content for every source satisfying that contract (universally quantified (n, err) answers = every chunking): limit, EOF/ErrStreamTooLarge discrimination, close-once bookkeeping.",
+ "C07": ("Deductive proof of absence of panics for the entry points under contract: every index, slice, nil-dereference, division, make, type-assertion and explicit-panic obligation generated from the SSA is discharged for all inputs, callee documented panics (CryptBlocks, NewCBCDecrypter, Seal, ed25519.Verify, ...) are excluded by proof; loops carry variants where stated.",
+         "Assumes libspec contracts incl. their documented panics, address-space bound on lengths (2^56), govc's encoding. Entry points outside the contract files (reflection-based metadata/config decoding, time parsing, pem) are not covered and are listed in DESIGN.md.",
+         "DESIGN.md §6 C07"),
+ "C09": ("Deductive proof of the monitor invariant of the coalescing rate limiter's lock for all interleavings of lock-respecting goroutines: signals never exceed Adds, a signal is spawned only when something is pending, Add always records a pending event, first event of a window and the pending cap fire at once; option validation.",
+         "Monitor rule for sync.RWMutex (mutual exclusion assumed). Timelines (when signals arrive), Close/WaitGroup joins and goroutine hand-offs are outside this family and not claimed.",
+         "DESIGN.md §6 C09, §3"),
+ "C13": ("Deductive proof of the per-key bookkeeping of the lock maps for all interleavings of lock-respecting goroutines: fifo map entries exist exactly while some holder/waiter unit exists (no nil dereference, no counter underflow for correctly paired callers, entry pruned when the last unit leaves, per-key lock taken only after the map lock is released); cmap mutex map: lookups under the read lock, creation/Delete*/Clear under the write lock, per-key unlock before removal.",
+         "Mutual exclusion and FIFO grant order are the semantics of Go channels and sync.RWMutex (assumed). lock.Context / OuterCancel goroutine protocols are not covered.",
+         "DESIGN.md §6 C13, §3"),
+ "C14": ("Deductive proof of linearizability of the concurrent map, atomic-counter map and concurrent slice by the coarse-grained-locking argument: every method has one linearizing critical section whose effect on the abstract state equals the sequential model (state after acquisition = arbitrary, constrained by the lock invariant), including the double-checked GetOrCreate; pointer-level contracts of ring.Ring's straight-line methods.",
+         "Meta-theorem (mutual exclusion => ordering by acquisition yields a legal sequential history) is stated, not mechanised. ring loops (Len/Move/New/Do) and ring.Buffered are not yet under contract.",
+         "DESIGN.md §6 C14, §3.3"),
+ "C16": ("Deductive proof that the stream wrappers implement the io.Reader contract over the right abstract content for every source satisfying that contract (universally quantified (n, err) answers = every chunking): limit, EOF/ErrStreamTooLarge discrimination, concatenation order, tee log, close-once bookkeeping through Read and WriteTo.",
          "Assumes the io.Reader/io.Closer/io.Writer contracts in /verif/libspec/io.spec (ghost content/position/close-count per interface value), distinct source objects, govc's encoding, solver soundness.",
          "DESIGN.md §6 C16"),
- "C17": ("Deductive proof of frame obligations: every store, copy, in-place append and callee effect in the functions under contract targets memory allocated in the same activation or listed in the modifies clause (empty for these helpers); spare capacity is part of the goal.",
+ "C17": ("Deductive proof of frame obligations: every store, copy, in-place append and callee effect in the crypto helpers under contract targets memory allocated in the same activation or listed in the modifies clause (empty, or dst[len:cap] for the explicit AEAD destination); spare capacity is part of the goal.",
          "Assumes the frame clauses of library callees in /verif/libspec, govc's encoding, solver soundness.",
          "DESIGN.md §6 C17"),
+ "C20": ("Deductive proof of the 'never earlier' half for all interleavings: the watcher goroutine calls cancel() only when every member it tracked at its last look has ended or Cancel was called (loop invariant under the read lock, rely/guarantee across the lock gap, each writer section proved to satisfy the rely); Add/Cancel/Size against the sequential model of their critical section.",
+         "Channel contract (a receive from a Done channel returns only once it is closed; select takes default only if no case is ready) and monitor rule assumed. Eventual cancellation and termination of the watcher are liveness and not claimed.",
+         "DESIGN.md §6 C20, §3.4"),
 }
 
 REASON_WIP = "check not built yet in this round (planned: see DESIGN.md §6); not claimed until its obligations discharge on the unchanged tree"
